@@ -13,7 +13,7 @@ mkdir -p /tmp/seedverify; rm -rf $WT; : > $LOG
 git -C /repo worktree add --detach $WT HEAD >>$LOG 2>&1 || exit 2
 cleanup() { git -C /repo worktree remove --force $WT >>$LOG 2>&1; }
 trap cleanup EXIT
-cp $DEMO $WT/$DEST/ || exit 2
+if [ -d "$DEMO" ]; then cp $DEMO/*.go $WT/$DEST/ || exit 2; DEMOFILES=$(cd $DEMO && ls *.go); else cp $DEMO $WT/$DEST/ || exit 2; DEMOFILES=$(basename $DEMO); fi
 PKG=./$DEST/
 cd $WT
 echo "== demo WITHOUT change" >>$LOG
@@ -21,7 +21,7 @@ go test -vet=off -count=1 -run "$RUN" $PKG >>$LOG 2>&1; R0=$?
 git apply $SRC/patch.diff >>$LOG 2>&1 || { echo "patch fails to apply" >>$LOG; exit 2; }
 echo "== demo WITH change" >>$LOG
 go test -vet=off -count=1 -run "$RUN" $PKG >>$LOG 2>&1; R1=$?
-rm -f $WT/$DEST/$(basename $DEMO)
+for f in $DEMOFILES; do rm -f $WT/$DEST/$f; done
 echo "== build + compile tests" >>$LOG
 go build ./... >>$LOG 2>&1 && go test -vet=off -count=1 -run '^$' ./... >>$LOG 2>&1; RB=$?
 RS=skipped
@@ -35,7 +35,7 @@ fi
 echo "RESULT $ID-$X demo_without=$R0 demo_with=$R1 build=$RB suite=$RS" | tee -a $LOG
 if [ $R0 -eq 0 ] && [ $R1 -ne 0 ] && [ $RB -eq 0 ] && { [ "$RS" = 0 ] || [ "$RS" = skipped ]; }; then
   OUT=/verif/seeded/$ID-$X; mkdir -p $OUT/demo
-  cp $SRC/patch.diff $OUT/; cp $DEMO $OUT/demo/; cp $SRC/notes.md $OUT/notes.md
+  cp $SRC/patch.diff $OUT/; if [ -d "$DEMO" ]; then cp $DEMO/*.go $OUT/demo/; else cp $DEMO $OUT/demo/; fi; cp $SRC/notes.md $OUT/notes.md
   python3 - "$ID" "$X" "$DEST" "$RUN" "$R0" "$R1" "$RB" "$RS" > $OUT/meta.json <<'PY'
 import json,sys
 ID,X,DEST,RUN,R0,R1,RB,RS=sys.argv[1:9]
